@@ -214,7 +214,7 @@ def static_tables(ctx, rng, tmp, read_elast_data):
         for i in range(nv):
             lines.append(pad_l + sep.join([vtoks[i][0]] + [t[0] for t in toks[i]]) + pad_r)
         if lat:
-            lines.append("lattice parameters a b c")
+            lines.append(str(rng.choice(["lattice parameters a b c", "lattice_a lattice_b lattice_c", "a b c", "# axes", "cell edges in bohr"])))
             for i in range(nv):
                 lines.append(pad_l + sep.join(t[0] for t in ltoks[i]) + pad_r)
         f = tmp / "elast.dat"
